@@ -615,6 +615,50 @@ def clause9_matcher_count(ctx, P):
                     filled = True
                 elif i.id in cs and filled and not late:
                     late.append((f, i))
+    # the same for the operands of one matcher: free_path_elements() walks path_elements[0 .. number_of_path_elements)
+    PM = "struct.path_matcher"
+    pfill, pcount = [], []
+    for f in P.own_functions():
+        if f.base != "fetch.c":
+            continue
+        for i in f.all_insts():
+            if i.op == "store":
+                d = P.term(f, i.a[1])
+                if Q.mentions(d, lambda x: x[0] == "field" and x[2] == PM and x[3] == "path_elements") and d[0] in ("index", "byteoff") and not P.is_null(i.a[0]):
+                    pfill.append((f, i))
+                if d[0] == "field" and d[2] == PM and d[3] == "number_of_path_elements":
+                    pcount.append((f, i))
+    palloc = [f for f, _ in pcount if any(c.op == "call" and c.callee and P.srcname_of(c.callee) in ("cjet_calloc", "cjet_malloc") for c in f.all_insts())]
+    # stored by the allocating function, or (after inlining) on every path BEFORE the call that fills the elements
+    plate = []
+    for f, i in pcount:
+        fills = [c for c in f.all_insts() if c.op == "call" and c.callee and (P.srcname_of(c.callee) == "fill_path_elements" or
+                                                                             any(g is P.functions.get(c.callee) for g, _ in pfill))]
+        for v in Q.path_views(ctx, P, f):
+            seen_fill = False
+            for _, j in v.insts():
+                if j in fills:
+                    seen_fill = True
+                elif j.id == i.id and seen_fill:
+                    plate.append((f, i))
+    ctx.ob("C16.5 R-ORDER", P.fn("fetch.c:free_path_elements"), "operand-count-stands-before-operands-are-copied",
+           bool(pcount) and not plate and len(pfill) >= 1,
+           ("%s() writes number_of_path_elements at %s only after the operands have been copied: when a later operand is refused (wrong "
+            "type, allocation failure) free_path_elements() walks 0 elements and the copies already made are lost for good" %
+            (plate[0][0].srcname, plate[0][1].loc)) if plate else "operand count stored before the operands are copied")
+    # a matcher that is accepted is recorded: every successful path of create_matcher() stores into the fetch's matcher slot
+    cm = P.fn("fetch.c:create_matcher")
+    badm = None
+    nm = 0
+    for v in Q.path_views(ctx, P, cm):
+        if v.ret_const() != 0:
+            continue
+        nm += 1
+        if not any(i.op == "store" and Q.mentions(P.term(cm, i.a[1]), lambda x: x[0] == "field" and x[2] == F and x[3] == "matcher") for _, i in v.insts()):
+            badm = v
+    ctx.ob("C16.5 R-COMMIT", cm, "accepted-matcher-is-recorded", badm is None and nm > 0,
+           "create_matcher() reports success on a path that records no matcher in its slot: the slot stays NULL, which state_matches() reads "
+           "as 'no rule' (everything is selected) or dereferences", witness=badm.witness() if badm else None)
     ctx.ob("C16.5 R-ORDER", P.fn("fetch.c:free_matcher"), "matcher-count-stands-before-slots-are-filled",
            bool(alloc) and not late and len(fillers) >= 1,
            ("%s() writes number_of_matchers at %s although it also fills matcher slots: until then the count is 0 and a refusal in the "
